@@ -230,9 +230,23 @@ def c04(tier):
             # schemas with at most one relation / Multi bit (4 bits per state: Require Add Remove Multi), one unit each
             for code in [0] + [1 << i for i in range(8)]:
                 units.append(U(MACH, "VerifC04Nested", weight=4, n=2, schema=code, mut=mut, nk=nk, vetos=0 if tier == "quick" else 1))
-    return {"units": units, "bounds": dict(MACH_BOUNDS, states="2 user states, schemas with at most one relation / Multi bit", nesting="one mutation (Add/Remove/Set over any called set) issued from inside any one handler call; "
+            # a busy queue around the nested mutation: a tick-less check mutation prepended before it (around=1), an Eval
+            # with an already ended context prepended in front of it (around=2)
+            for around in (1, 2):
+                for code in ([0] if tier == "quick" else [0, 1, 2, 4, 8]):
+                    units.append(U(MACH, "VerifC04Nested", weight=3, n=2, schema=code, mut=mut, nk=nk, vetos=0, around=around))
+    # two goroutines: the second caller's mutation lands at a symbolic statement boundary of the first caller's
+    # queueMutation / PrependMut / processQueue (schedule = symbolic booleans, one per instrumented point)
+    for mut in (0, 1, 2):
+        for mut2 in (0, 1, 2):
+            for code in ([0, 8] if tier == "quick" else [0] + [1 << i for i in range(8)]):
+                units.append(U(MACH, "VerifC04Race", weight=4, n=2, schema=code, mut=mut, mut2=mut2))
+    return {"units": units, "bounds": dict(MACH_BOUNDS, states="2 user states, schemas with at most one relation / Multi bit", schedules="2 goroutines, one mutation each: "
+                                       "the second call runs as one atomic block at any statement boundary of queueMutation / PrependMut / processQueue of the first "
+                                       "(incl. the window between the drain loop's last length check and the release of the processing flag) where the first holds no mutex", nesting="one mutation (Add/Remove/Set over any called set) issued from inside any one handler call, "
+                                       "alone, after a CanAdd1 check from the same handler, or followed by an Eval whose context has already ended; "
                                        "quick tier: handlers never veto, thorough: symbolic veto table"),
-            "outside": MACH_OUT + ["N>=2 goroutines racing on the queue lock (CAS): not explored, see DESIGN.md (C04 race clause)", "Eval", "handler timeouts / dispose flushing"],
+            "outside": MACH_OUT + ["more than 2 goroutines, preemption inside other functions than queueMutation / PrependMut / processQueue, preemption while a mutex is held, more than one context switch into the second goroutine", "Eval with a live context (blocks the caller until the queue reaches it)", "handler timeouts / dispose flushing"],
             "assumptions": MACH_ASSUME}
 
 
@@ -247,8 +261,17 @@ def c06(tier):
                 ctx = -1 if (tier == "thorough" or kind in (0, 1, 5)) else 0
                 for ex in extras if kind in (2, 3, 5, 7) else (1,):
                     units.append(U(MACH, "VerifC06Wait", weight=5, n=2, schema=0, kind=kind, pos=pos, mut1=m1, auto=0, ctx=ctx, extra=ex))
+    # NewStateCtx over a Multi state (4 bits per state: Require Add Remove Multi): re-activation is a new instance
+    for pos in (0, 2):
+        for m1 in (0, 1, 2):
+            units.append(U(MACH, "VerifC06Wait", weight=5, n=2, schema=8, kind=6, pos=pos, mut1=m1, auto=0, ctx=0, extra=1))
     # schemas with an Auto / Multi state (5 bits per state: Require Add Remove Multi Auto): partially accepted
     # auto mutations, Multi re-activation
+    # two When / WhenNot subscriptions sharing one context, 3 states, two single-state mutations
+    for k1 in (0, 1):
+        for k2 in (0, 1):
+            for s1 in range(1, 8):
+                units.append(U(MACH, "VerifC06SharedCtx", weight=5, n=3, schema=0, k1=k1, k2=k2, s1=s1))
     codes = (16,) if tier == "quick" else (16, 20, 17, 8, 24)
     kinds = (6,) if tier == "quick" else (0, 1, 2, 6)
     for kind in kinds:
@@ -264,10 +287,11 @@ def c06(tier):
 
 
 def c08(tier):
-    units = shards("VerifC08Fault", 3, weight=4, n=2)
-    return {"units": units, "bounds": dict(MACH_BOUNDS, fault="one panic at any of the first 6 handler calls of one mutation (negotiation or final handler)"),
+    units = shards("VerifC08Fault", 3, weight=4, n=2) + shards("VerifC08Fault", 3, weight=6, n=2, double=1)
+    return {"units": units, "bounds": dict(MACH_BOUNDS, fault="one panic at any of the first 6 handler calls of one mutation (negotiation or final handler), on a machine without an "
+                                       "earlier fault or with Exception still active from a first fault (sequence of two faults)"),
             "outside": ["that a real panic cannot escape the handler goroutine (the fault is delivered on handlerPanic as handlerLoop's recover does)", "handler timeouts, deadlines, backoff timing",
-                        "double faults, faults inside Exception handlers", "PanicToErr for forked code"], "assumptions": MACH_ASSUME}
+                        "sequences of more than two faults, faults inside Exception handlers", "PanicToErr for forked code"], "assumptions": MACH_ASSUME}
 
 
 def c11(tier):
@@ -303,10 +327,13 @@ def c11(tier):
 
 def c13(tier):
     units = [U(MACH, "VerifC13Dispose", weight=10, nconcrete=2)]
+    for at in range(6):
+        units.append(U(MACH, "VerifC13InFlight", weight=4, n=2, schema=0, at=at))
     return {"units": units, "bounds": {"waiters": "any subset of When, WhenNot, WhenTime, WhenArgs, WhenQueue, WhenQuery, NewStateCtx (with or without a shared ctx)",
-                                       "dispose_handlers": "0..2", "dispose": "DisposeForce once or twice"},
-            "outside": ["Dispose() proper (forks doDispose, sleeps, waits for the queue)", "handler goroutine exit, goroutine leaks", "Dispose concurrent with mutations or from a handler",
-                        "pkg/states DisposedHandlers, amhelp.Dispose"], "assumptions": MACH_ASSUME}
+                                       "dispose_handlers": "0..2", "dispose": "DisposeForce once or twice on an idle machine; DisposeForce landing inside a running transition "
+                                       "(tracer hooks init/start/finals/end, a negotiation handler, a final handler) of one Add1/Remove1 on a 2-state machine"},
+            "outside": ["Dispose() proper (forks doDispose, sleeps, waits for the queue)", "handler goroutine exit, goroutine leaks", "Dispose concurrent with mutations on another goroutine, "
+                        "in-flight Eval", "pkg/states DisposedHandlers, amhelp.Dispose"], "assumptions": MACH_ASSUME}
 
 
 PROPS.update({"C04": c04, "C06": c06, "C08": c08, "C11": c11, "C13": c13})
@@ -315,11 +342,12 @@ PROPS.update({"C04": c04, "C06": c06, "C08": c08, "C11": c11, "C13": c13})
 def c16(tier):
     pkg = "./tools/debugger/server"
     units = [U(pkg, f, nconcrete=3) for f in ("VerifC16QueueTick", "VerifC16MachTime", "VerifC16Errors", "VerifC16Index")]
+    units.append(U("./tools/debugger", "VerifC16Filter"))
     pkg2 = "./pkg/helpers"
     return {"units": units,
             "bounds": {"stream": "0..4 transitions with non-decreasing 64-bit queue ticks / time sums (built from symbolic 32/16-bit increments), descending error index "
-                       "lists of length 0..3, 3 transition ids", "queries": "any 64-bit queue tick / time sum, any index -1..5, cursor 0..7"},
-            "outside": ["hParseMsg derivations (added/removed/touched, sums) and GetTransitionStates: not encoded in this revision", "TUI navigation (Fwd/Back/scroll/filter handlers)",
+                       "lists of length 0..3, 3 transition ids; filters: 1..3 records with symbolic IsAuto/Accepted/IsQueued/IsCheck flags and queue ticks 0..3, any combination of the 6 basic filters", "queries": "any 64-bit queue tick / time sum, any index -1..5, cursor 0..7"},
+            "outside": ["hParseMsg derivations (added/removed/touched, sums) and GetTransitionStates: not encoded in this revision", "TUI navigation (Fwd/Back/scroll handlers), group / healthcheck filters and hFilterTxCursor1 (hFilterTx's basic transition filters are encoded)",
                         "gob/brotli export-import", "several clients", "TxAtHTime (wall-clock time.Time arithmetic)"],
             "assumptions": ["Client built as a struct literal with the exported slices filled by the harness", "fork mode: comparisons on symbolic values fork, z3 decides feasibility"]}
 
